@@ -132,7 +132,7 @@ def run(ctx, rep):
                    dirty.get(dirty_key, 0) if comp_name != 'symbols' else dirty['scopes'] + dirty['contexts'], comp_name, restored.get(comp_name)), ca.loc())
     for v_ in R['violations']:
         if v_['oblig'] == 'R17.2':
-            rep.bad('R17.2', 'compiler::Compiler::' + v_['method'], v_['construct'], v_['text'], ca.loc())
+            rep.bad('R17.2', 'compiler::Compiler::' + v_['method'], v_['construct'], v_['text'], ca.loc(), key=v_['kc'])
     rep.count('top_level_error_exits', len(R.get('toperrs', [])))
     if not [v_ for v_ in R['violations'] if v_['oblig'] == 'R17.2']:
         rep.good('R17.2', 'compiler::Compiler::compile_ast', 'error exits (CSA)', '%d error exits of the top-level driver examined: scopes, contexts, loop contexts, code buffer and peephole register are all back to their initial state' % len(R.get('toperrs', [])), ca.loc())
